@@ -439,7 +439,10 @@ class OptimizerLog:
 
     def curve_fit(self, f, xdata, ydata, p0=None, sigma=None, bounds=(-np.inf, np.inf), **kw):
         rec = {"kind": "curve_fit", "f": f, "x": xdata, "y": ydata, "p0": None if p0 is None else tuple(p0),
-               "sigma": sigma, "bounds": bounds, "kw": kw}
+               "sigma": sigma, "bounds": bounds, "kw": kw,
+               # values at the time of the call (the arrays may be modified in place afterwards - or before)
+               "x_at_call": list(np.ravel(npx.deep_strip(xdata))), "y_at_call": list(np.ravel(npx.deep_strip(ydata))),
+               "sigma_at_call": None if sigma is None else list(np.ravel(npx.deep_strip(sigma)))}
         if self.h.sym:
             popt = np.empty(len(p0), dtype=object)
             popt[:] = self._fresh(len(p0), "popt")
